@@ -77,7 +77,7 @@ impl E2ECampaign {
     let cfg = FaultCfg { p_eintr: swarm(&mut rng, &[3, 10]), p_spurious_timeout: swarm(&mut rng, &[5, 20]), p_spurious_ready: swarm(&mut rng, &[5, 20]), p_latency: swarm(&mut rng, &[10, 40]), p_oversleep: swarm(&mut rng, &[20]), max_interrupts: rng.below(3) as u32 };
     let mut cfg = cfg;
     match rng.below(24) { 0 => cfg.p_spurious_timeout = 90, 1 => cfg.p_spurious_ready = 90, 2 => { cfg.p_eintr = 85; cfg.max_interrupts = 6 + rng.below(5) as u32; } _ => {} }
-    let b = CaseB { layout: a.layout.clone(), layout_name: a.layout_name.clone(), kbd, tab: vec![], has_tablet: false, cfg, tape: vec![], fail_at: None, extra_ticks: rng.below(3) as u32, kbd_end_at: None, tab_end_at: None, hybrid: true, write_fault: None, read_fault: None };
+    let b = CaseB { layout: a.sut_layout().unwrap_or_else(|_| a.layout.clone()), layout_name: a.layout_name.clone(), kbd, tab: vec![], has_tablet: false, cfg, tape: vec![], fail_at: None, extra_ticks: rng.below(3) as u32, kbd_end_at: None, tab_end_at: None, hybrid: true, write_fault: None, read_fault: None };
     CaseE { a, b }
   }
 }
@@ -111,7 +111,7 @@ impl E2ECampaign {
     }
     let swarm = |rng: &mut Rng, choices: &[u32]| if rng.chance(1, 2) { 0 } else { rng.pick(choices) };
     let cfg = FaultCfg { p_eintr: swarm(rng, &[3, 10]), p_spurious_timeout: swarm(rng, &[5, 20]), p_spurious_ready: swarm(rng, &[5, 20]), p_latency: swarm(rng, &[10, 40]), p_oversleep: swarm(rng, &[20]), max_interrupts: rng.below(3) as u32 };
-    let b = CaseB { layout: a.layout.clone(), layout_name: a.layout_name.clone(), kbd, tab, has_tablet: true, cfg, tape: vec![], fail_at: None, extra_ticks: rng.below(3) as u32, kbd_end_at: None, tab_end_at: None, hybrid: true, write_fault: None, read_fault: None };
+    let b = CaseB { layout: a.sut_layout().unwrap_or_else(|_| a.layout.clone()), layout_name: a.layout_name.clone(), kbd, tab, has_tablet: true, cfg, tape: vec![], fail_at: None, extra_ticks: rng.below(3) as u32, kbd_end_at: None, tab_end_at: None, hybrid: true, write_fault: None, read_fault: None };
     CaseE { a, b }
   }
 }
@@ -186,7 +186,10 @@ pub fn attribute(layout: &Layout, delivered: &[Event], trace: &[Item]) -> (Vec<V
 }
 
 pub fn execute_e(case: &CaseE, en: &En, record: Option<u64>, obs: &mut Obs) -> Result<(Option<Violation>, Outcome), String> {
-  let c = case.b.clone();
+  let mut c = case.b.clone();
+  // the loop runs what the tree under test makes of the layout as written
+  if case.a.written.is_some() { c.layout = case.a.sut_layout()?; }
+  let sut_layout = c.layout.clone();
   let out = catch_unwind(AssertUnwindSafe(|| { let mut bl = crate::wiresim::PipeLayer::new(); crate::loopsim::execute(&c, record, Some(&mut bl)) })).map_err(|e| panic_msg(&e))?;
   // a run that hit the simulator's trace cap was cut short by an unplug the history knows nothing
   // about (fast timers under a readiness storm can do that): it is not evaluated
@@ -194,13 +197,13 @@ pub fn execute_e(case: &CaseE, en: &En, record: Option<u64>, obs: &mut Obs) -> R
   if case.b.has_tablet {
     let (ops, steps, chords) = ops_from_trace(&out.trace);
     let mut pre = Precomputed { steps, chords, i: 0, per_op: true };
-    let a = CaseA { layout: case.a.layout.clone(), layout_name: case.a.layout_name.clone(), dist: case.a.dist, ops };
+    let a = CaseA { layout: case.a.layout.clone(), layout_name: case.a.layout_name.clone(), dist: case.a.dist, ops, written: case.a.written.clone() };
     let en2 = *en;
     let v = catch_unwind(AssertUnwindSafe(|| execute_with(&a, &en2, obs, &mut pre))).map_err(|e| format!("oracle panicked: {}", panic_msg(&e)))?;
     return Ok((v, out));
   }
   let delivered: Vec<Event> = case.a.ops.iter().filter_map(|o| if let Op::Ev(e) = o { Some(e.clone()) } else { None }).collect();
-  let (steps, chords, _note) = attribute(&case.a.layout, &delivered, &out.trace);
+  let (steps, chords, _note) = attribute(&sut_layout, &delivered, &out.trace);
   let mut pre = Precomputed { steps, chords, i: 0, per_op: false };
   let a = case.a.clone(); let en2 = *en;
   let v = catch_unwind(AssertUnwindSafe(|| execute_with(&a, &en2, obs, &mut pre))).map_err(|e| format!("oracle panicked: {}", panic_msg(&e)))?;
@@ -217,8 +220,9 @@ pub fn minimise_e(case: &CaseE, en: &En, label: &str) -> (CaseE, Violation, u64)
     if cur.step + 1 < best.a.ops.len() { let mut c = best.clone(); c.a.ops.truncate(cur.step + 1); c.b.kbd.truncate(cur.step + 1); if let Some(v) = same(&c, &mut execs) { best = c; cur = v; progress = true; } }
     let mut i = best.a.ops.len();
     while i > 0 && execs < 1500 { i -= 1; let mut c = best.clone(); c.a.ops.remove(i); if i < c.b.kbd.len() { c.b.kbd.remove(i); } if let Some(v) = same(&c, &mut execs) { best = c; cur = v; progress = true; } }
+    if best.a.written.is_some() { let mut c = best.clone(); c.a.written = None; c.b.layout = c.a.layout.clone(); if let Some(v) = same(&c, &mut execs) { best = c; cur = v; progress = true; } }
     let mut i = 0;
-    while i < best.a.layout.mappings.len() && execs < 1500 { let mut c = best.clone(); c.a.layout.mappings.remove(i); c.b.layout = c.a.layout.clone(); if let Some(v) = same(&c, &mut execs) { best = c; cur = v; progress = true; } else { i += 1; } }
+    while best.a.written.is_none() && i < best.a.layout.mappings.len() && execs < 1500 { let mut c = best.clone(); c.a.layout.mappings.remove(i); c.b.layout = c.a.layout.clone(); if let Some(v) = same(&c, &mut execs) { best = c; cur = v; progress = true; } else { i += 1; } }
     { let mut c = best.clone(); for (t, _) in c.b.kbd.iter_mut() { *t = 0; } if c.b.kbd != best.b.kbd && execs < 1500 { if let Some(v) = same(&c, &mut execs) { best = c; cur = v; progress = true; } } }
     if !progress || execs >= 1500 { break; }
   }
@@ -272,7 +276,10 @@ impl Campaign for E2ECampaign {
   }
   fn replay(&self, case: &Value) -> Result<Option<Violation>, String> {
     let c = CaseE::from_json(case)?; let mut o = Obs::default();
-    execute_e(&c, &self.inner.en, None, &mut o).map(|(v, _)| v)
+    execute_e(&c, &self.inner.en, None, &mut o).map(|(v, out)| {
+      if std::env::var("VERIF_DUMP_TRACE").is_ok() { for (i, it) in out.trace.iter().enumerate() { eprintln!("  trace[{}] {}", i, crate::loopsim::item_str(it)); } eprintln!("  result {:?} byte_error {:?} stats {:?}", out.result, out.byte_error, out.stats); }
+      v
+    })
   }
   fn rule(&self) -> String {
     format!("end to end: layout and delivered key history as in world A (no reset blocks; Special repeats forced on; one run in eight a burst of 70-150 events in a few big batches, one in six with up to 9 keys held); every delivered event is written as a kernel input_event record into a pipe at a seeded time (gaps 0 / <5 ms / 20-100 ms / 150-550 ms), with 0-2 foreign records (SYN, MSC scan, value-2 auto-repeat, unknown codes, LED/REL, odd values) before and after it; the real loop runs on the hybrid simulated driver (shipped RealDriver, real reader and writer on pipes; latency, spurious readiness, interruptions swarm-style); the events a consumer sees in the bytes on the uinput pipe are dealt out, as one stream, to the key events the loop read (as many as a reference mapper emits for each); batches written after a time-out are timer chords: their content is left to C11, their effect on what is held is applied; the world-A oracle of this property is evaluated on those per-event outputs; distinct by hash of (layout, ops, arrival times, tape); non-trivial = {}", crate::worlda::nontrivial_rule(self.inner.property))
